@@ -63,9 +63,17 @@ def classify(data):
     except visa.HarnessTimeout as t:
         return ("hang", (t.args[0] if t.args else "") or "?")
     except MemoryError as x:
-        # bucket by the parser function that asked for the memory (the generic structure unpackers are skipped)
+        # bucket by the parser function that asked for the memory (the generic structure unpackers are skipped).
+        # The frames of the failed call are still alive here: use the slack between soft and hard limit for the handling
+        import resource
         import sys
         import traceback
+
+        soft, hard = resource.getrlimit(resource.RLIMIT_AS)
+        try:
+            resource.setrlimit(resource.RLIMIT_AS, (hard, hard))
+        except Exception:
+            pass
 
         site = ""
         for t in reversed(traceback.extract_tb(sys.exc_info()[2])):
@@ -74,6 +82,12 @@ def classify(data):
                 if not rel.startswith("system/structs/") and rel != "system/core.py":
                     site = "%s:%s" % (rel, t.name.lstrip("_"))
                     break
+        x.__traceback__ = None
+        del x
+        try:
+            resource.setrlimit(resource.RLIMIT_AS, (soft, hard))
+        except Exception:
+            pass
         return ("exc", "escape:MemoryError:%s" % (site or "?"), "MemoryError (allocation beyond the address-space limit for a %d byte input)" % len(data))
     except Exception as x:
         return ("exc", bucket_of_exception("escape", x), repr(x)[:300])
